@@ -486,6 +486,96 @@ Proof.
   exists {| f_human := false; f_json := false; f_cyborg := None; f_dump := false; f_help_md := false;
             f_pretty := false; f_brief := false; f_features := StableBasic; f_recover := false;
             f_output_file := None; f_log_file := None; f_verbose_off := true |}.
-  exists {| e_create := fun _ => IoOk; e_read := false; e_process := true; e_write := fun _ _ => IoOk |}.
+  exists {| e_create := fun _ => IoOk; e_read := false; e_process := true; e_write := fun _ _ => IoOk; e_partial := fun _ _ => false |}.
   repeat split. intros [H|[_ H]]; [destruct H as [H|[]]; discriminate H|discriminate H].
+Qed.
+
+(* ------------------------------------------------------------------ io faults in the middle of a report *)
+(* bytes are present on sink [w] after the run: a complete report, or the prefix a failing printer call left *)
+Definition sink_dirty (e : env) (w : writer) (tr : list event) : Prop :=
+  exists r, In (Written w r) tr \/ (In (WriteFailed w r) tr /\ e_partial e w r = true).
+
+(* an io error (not a broken pipe) hit a printer call after report bytes had been streamed: either that
+   very call had already written a prefix, or an earlier report was complete on the primary output *)
+Definition midreport_io_error (f : flags) (e : env) : Prop :=
+  exists w r, In (WriteFailed w r) (fst (run f e)) /\ e_write e w r = IoErr /\
+              (e_partial e w r = true \/ exists r0, In (Written (writer_of f) r0) (fst (run f e))).
+
+Lemma render_in_run : forall f e ev, f_help_md f = false -> is_render ev = true -> In ev (fst (run f e)) ->
+  exists p, decide f = Plan p /\ In ev (fst (do_writes e (steps p))) /\ snd (run f e) = snd (do_writes e (steps p)) /\
+            (forall ev', In ev' (fst (do_writes e (steps p))) -> In ev' (fst (run f e))).
+Proof.
+  intros f e ev Hh Hev Hin. rewrite run_shape in *.
+  destruct (total f) as [[rj Hr]|[[Hm Hm']|[p [Hp _]]]]; [| congruence |].
+  - rewrite Hr in *. destruct rj; [destruct Hin as [H|[]]; subst; discriminate Hev| |];
+      (apply in_do_creates in Hin; [|exact Hev]; destruct Hin as [[H|[]] _]; subst; discriminate Hev).
+  - rewrite Hp in *. exists p. split; [reflexivity|].
+    apply in_do_creates in Hin; [|exact Hev]. destruct Hin as [Hin E1]. rewrite E1. cbn [fst snd].
+    unfold exec in *. destruct (e_read e); cbn [negb] in *; [|destruct Hin as [H|[]]; subst; discriminate Hev].
+    apply in_do_creates in Hin; [|exact Hev]. destruct Hin as [Hin E2]. rewrite E2. cbn [fst snd].
+    destruct (p_process p && negb (e_process e)); [destruct Hin as [H|[]]; subst; discriminate Hev|].
+    split; [exact Hin|]. split; [reflexivity|].
+    intros ev' H'. apply in_or_app; right. apply in_or_app; right. exact H'.
+Qed.
+
+Lemma do_writes_failed_or_zero : forall e ws,
+  snd (do_writes e ws) = 0 \/ exists w r, In (WriteFailed w r) (fst (do_writes e ws)) /\ e_write e w r = IoErr.
+Proof.
+  intros e ws. destruct (do_writes_cases e ws) as [[E _]|[pre [w [r [post [_ [Hw [_ E]]]]]]]]; rewrite E; cbn [fst snd].
+  - left; reflexivity.
+  - destruct (e_write e w r) eqn:Ew; [congruence| |left; reflexivity].
+    right. exists w, r. split; [|exact Ew]. apply in_or_app; right. left. reflexivity.
+Qed.
+
+(* a failing run in which no printer call failed renders nothing anywhere — whatever else the
+   environment does (creation failures, read errors, processing errors) *)
+Lemma failure_no_partial_report_partial : forall f e, f_help_md f = false -> snd (run f e) <> 0 ->
+  (forall w r, ~ In (WriteFailed w r) (fst (run f e))) ->
+  existsb is_render (fst (run f e)) = false.
+Proof.
+  intros f e Hh Hne Hnf.
+  destruct (existsb is_render (fst (run f e))) eqn:E; [|reflexivity]. exfalso.
+  apply existsb_exists in E. destruct E as [ev [Hin Hev]].
+  destruct (render_in_run f e ev Hh Hev Hin) as [p [Hp [Hin' [Hc Hsub]]]].
+  destruct (do_writes_failed_or_zero e (steps p)) as [H0|[w [r [Hf _]]]].
+  - apply Hne. rewrite Hc. exact H0.
+  - exact (Hnf w r (Hsub _ Hf)).
+Qed.
+
+(* bytes on the primary output of a failing run: only through a mid-report io error *)
+Lemma dirty_primary_only_midreport : forall f e, f_help_md f = false -> snd (run f e) <> 0 ->
+  sink_dirty e (writer_of f) (fst (run f e)) -> midreport_io_error f e.
+Proof.
+  intros f e Hh Hne [r [Hw|[Hf Hp]]].
+  - destruct (render_in_run f e (Written (writer_of f) r) Hh eq_refl Hw) as [p [Hp [_ [Hc Hsub]]]].
+    destruct (do_writes_failed_or_zero e (steps p)) as [H0|[w' [r' [Hf' He']]]].
+    + exfalso. apply Hne. rewrite Hc. exact H0.
+    + exists w', r'. split; [exact (Hsub _ Hf')|]. split; [exact He'|]. right. exists r. exact Hw.
+  - exists (writer_of f), r. split; [exact Hf|]. split; [|left; exact Hp].
+    destruct (io_error_status f e _ _ Hh Hf) as [[_ H0]|[He _]]; [congruence|exact He].
+Qed.
+
+(* the unconditional claim "status 1 => nothing on the primary output" is false: two witnesses *)
+Lemma failure_no_partial_report_refuted :
+  (exists f e, accepted f /\ snd (run f e) = 1 /\ (forall w r, e_partial e w r = false) /\
+               In (Written (writer_of f) Human) (fst (run f e))) /\
+  (exists f e, accepted f /\ snd (run f e) = 1 /\ f_cyborg f = None /\
+               sink_dirty e (writer_of f) (fst (run f e))).
+Proof.
+  split.
+  - exists {| f_human := false; f_json := false; f_cyborg := Some 2; f_dump := false; f_help_md := false;
+              f_pretty := false; f_brief := false; f_features := StableBasic; f_recover := false;
+              f_output_file := None; f_log_file := None; f_verbose_off := false |}.
+    exists {| e_create := fun _ => IoOk; e_read := true; e_process := true;
+              e_write := fun w _ => match w with Stdout => IoOk | File _ => IoErr end;
+              e_partial := fun _ _ => false |}.
+    split; [split; [vm_compute; discriminate|reflexivity]|]. split; [reflexivity|]. split; [reflexivity|].
+    vm_compute. right. left. reflexivity.
+  - exists {| f_human := false; f_json := true; f_cyborg := None; f_dump := false; f_help_md := false;
+              f_pretty := false; f_brief := false; f_features := StableBasic; f_recover := false;
+              f_output_file := Some 1; f_log_file := None; f_verbose_off := false |}.
+    exists {| e_create := fun _ => IoOk; e_read := true; e_process := true;
+              e_write := fun _ _ => IoErr; e_partial := fun _ _ => true |}.
+    split; [split; [vm_compute; discriminate|reflexivity]|]. split; [reflexivity|]. split; [reflexivity|].
+    exists (Json false). right. split; [vm_compute; right; left; reflexivity|reflexivity].
 Qed.
